@@ -629,8 +629,56 @@ impl Ctx {
     }
 }
 
+/// The monitors are built with overflow checks and debug assertions on (the arithmetic a library user
+/// gets from `cargo build` / `cargo test`). Code may behave differently in a plain release build: an
+/// overflow wraps instead of panicking, a `debug_assert!` with a side effect disappears. So every run
+/// ends with a quick-size leg of the same monitor built with the `plainrelease` profile (a sibling
+/// binary, run as a child process); what it reports is reported here with the prefix
+/// `plain-release-build/`. The child writes no evidence file of its own.
+fn plain_release_leg(ctx: &Ctx) {
+    if ctx.replay_mode || !cfg!(debug_assertions) || std::env::var("VERIF_PLAIN_LEG").is_ok() || std::env::var("VERIF_SKIP_PLAIN_LEG").is_ok() {
+        return;
+    }
+    if ctx.prop == "C18" {
+        // (C18 runs the dev and the release build of the CLI binary itself)
+        return;
+    }
+    let Ok(me) = std::env::current_exe() else { return };
+    let Some(sibling) = me.parent().and_then(|p| p.parent()).map(|p| p.join("plainrelease").join("avra-verif")) else { return };
+    if !sibling.exists() {
+        ctx.put("plain_release_leg", json!("binary not built (run through ./check)"));
+        return;
+    }
+    let t0 = Instant::now();
+    let out = std::process::Command::new(&sibling)
+        .args(["run", &ctx.prop, "--tier", "quick", "--seed", &ctx.seed.to_string()])
+        .env("VERIF_PLAIN_LEG", "1")
+        .env("VERIF_SKIP_MIRI", "1")
+        .output();
+    let Ok(out) = out else {
+        ctx.inconclusive("plain-release leg could not be started");
+        return;
+    };
+    let text = String::from_utf8_lossy(&out.stdout);
+    let mut n = 0;
+    for l in text.lines().filter(|l| l.starts_with("VIOLATION ")) {
+        let field = |k: &str| l.split_whitespace().find_map(|w| w.strip_prefix(k)).unwrap_or("").to_string();
+        let (replay, sig) = (field("replay="), field("sig="));
+        let what = l.splitn(6, ' ').nth(5).unwrap_or("").to_string();
+        ctx.violation(format!("plain-release-build/{}", sig), format!("only the plain release build was asked: {}", what), json!({"harness_profile": "plainrelease", "leg_replay_file": replay}));
+        n += 1;
+    }
+    let summary = text.lines().rev().find(|l| l.starts_with(&format!("{} tier=", ctx.prop))).unwrap_or("").to_string();
+    match out.status.code() {
+        Some(0) | Some(1) => {}
+        other => ctx.inconclusive(format!("plain-release leg ended abnormally ({:?}): {}", other, clip(&String::from_utf8_lossy(&out.stderr), 200))),
+    }
+    ctx.put("plain_release_leg", json!({"profile": "opt-level 3, overflow-checks off, debug-assertions off", "tier": "quick", "summary": summary, "violation_lines": n, "exit": out.status.code(), "wall_s": t0.elapsed().as_secs_f64()}));
+}
+
 /// Finish a run: print KNOWN-FINDING / VIOLATION lines, write replays and evidence. Returns exit code.
 pub fn finish(ctx: &Ctx, rule: &str, assumptions: &[&str]) -> i32 {
+    plain_release_leg(ctx);
     let findings = load_findings();
     let open: BTreeMap<String, String> = findings
         .iter()
@@ -742,7 +790,7 @@ pub fn finish(ctx: &Ctx, rule: &str, assumptions: &[&str]) -> i32 {
         "violations": unlisted,
         "verdict": if unlisted > 0 { "violated" } else if harness_fail { "inconclusive" } else { "held-on-observed" },
     });
-    if !ctx.replay_mode {
+    if !ctx.replay_mode && std::env::var("VERIF_PLAIN_LEG").is_err() {
         let evdir = root.join("evidence");
         let _ = fs::create_dir_all(&evdir);
         let p = evdir.join(format!("{}.json", ctx.prop));
